@@ -263,7 +263,7 @@ func c14(r *core.Run) {
 			t, _ := ref.ParseType(e.Type)
 			rng := r.Rand(ci, "col")
 			lc := e.New()
-			vals := val.GenColumn(rng, t, rows, val.GenOpt{})
+			vals := val.GenColumn(rng, t, rows, val.GenOpt{BigStr: rows == 9})
 			cs := map[string]any{"type": e.Type, "kind": e.Kind, "rows": rows}
 			r.Eval()
 			if p := core.Recover(func() {
@@ -326,7 +326,7 @@ func c14(r *core.Run) {
 		sel := k % (len(val.Catalogue) + 60)
 		rows := []int{0, 0, 1, 3, 9, 130}[rng.Intn(6)]
 		rev := val.BlockRevisions[rng.Intn(len(val.BlockRevisions))]
-		bc, err := genBlockCase(r, ci, sel, rows, rev, val.GenOpt{MaxElem: 3})
+		bc, err := genBlockCase(r, ci, sel, rows, rev, val.GenOpt{MaxElem: 3, BigStr: k%4 == 0})
 		if err != nil {
 			continue
 		}
